@@ -1114,6 +1114,68 @@ func vfC16LateFinalFlight(t *testing.T, res *vfResult, idx int) {
 	res.Count("late_final_flight_cases", 1)
 }
 
+// vfC16CloseImported: a connection imported with ResumeWithOptions is an established, still-open session. Closed by
+// the application before it was ever read from or written to, it still owes the peer a close_notify: the peer's Read
+// returns EOF.
+func vfC16CloseImported(t *testing.T, res *vfResult, idx int) {
+	res.Eval(1)
+	c := vfC19Case{Suite: []string{"ECDSA-GCM128", "ECDSA-CBC", "PSK-CCM8"}[idx%3], CID: []int{-1, 4}[(idx/3)%2], Side: []string{"c", "s"}[idx%2], Idx: idx}
+	w, err := vfC19Setup(c)
+	if err != nil {
+		res.Count("close_imported_setup_failed", 1)
+
+		return
+	}
+	x, y := w.c, w.s
+	if c.Side == "s" {
+		x, y = w.s, w.c
+	}
+	id := fmt.Sprintf("close-imported/%s/cid%d/%s", c.Suite, c.CID, c.Side)
+	res.NonTrivial(fmt.Sprintf("%s/%d", id, idx))
+	if msg, _ := w.send(x, "before"); msg != "" {
+		w.close()
+
+		return
+	}
+	// export x exactly as vfC19World.export does, but do nothing on the imported connection except Close
+	_, st, ok := vfC19Snapshot(x.conn)
+	raw, merr := st.MarshalBinary()
+	var st2 State
+	if !ok || merr != nil || st2.UnmarshalBinary(raw) != nil {
+		w.close()
+
+		return
+	}
+	x.sock.Detach()
+	_ = x.conn.Close()
+	synctest.Wait()
+	if x.done != nil {
+		<-x.done
+	}
+	_ = x.ep.SetReadDeadline(time.Time{})
+	nc, err := ResumeWithOptions(&st2, &vfDetach{ep: x.ep}, x.raddr)
+	if err != nil {
+		w.close()
+
+		return
+	}
+	mark := len(w.n.Emissions(x.name))
+	_ = nc.Close()
+	time.Sleep(time.Second)
+	synctest.Wait()
+	emitted := len(w.n.Emissions(x.name)) - mark
+	select {
+	case <-y.done:
+		res.Count("close_imported_peer_saw_eof", 1)
+	default:
+		res.Violate("C16:no-close-notify:imported-connection-closed-before-first-io",
+			fmt.Sprintf("%s: the imported connection was closed by the application before any Read or Write; Close emitted %d datagrams and the peer's Read is still blocked one second later (no EOF)", id, emitted),
+			map[string]any{"close_imported": idx})
+	}
+	x.conn = nc
+	w.close()
+}
+
 // vfC16CloseRace: the peer closes; this side's read loop answers with close_notify, and that datagram is still
 // being written (socket slow for a moment) when the application calls Close here as well. One close_notify may
 // leave this endpoint. Real time, for the same reason as vfC16ParkedWrite.
@@ -1191,11 +1253,14 @@ func TestVF_C16(t *testing.T) {
 				Parked bool      `json:"parked"`
 				ParkDL bool      `json:"parked_deadline"`
 				Race   bool      `json:"race"`
+				CloseI *int      `json:"close_imported"`
 			} `json:"replay"`
 		}
 		vfLoadReplay(t, &rf)
 		vfDumpWire = true
-		if rf.Replay.Iter != nil && rf.Replay.ParkDL {
+		if rf.Replay.CloseI != nil {
+			synctest.Test(t, func(t *testing.T) { vfC16CloseImported(t, res, *rf.Replay.CloseI) })
+		} else if rf.Replay.Iter != nil && rf.Replay.ParkDL {
 			vfC16ParkedWriteDeadline(res, *rf.Replay.Iter)
 		} else if rf.Replay.Iter != nil && rf.Replay.Race {
 			vfC16CloseRace(res, *rf.Replay.Iter)
@@ -1215,6 +1280,7 @@ func TestVF_C16(t *testing.T) {
 	cases := vfC16Cases()
 	vfBubbles(t, len(cases), func(t *testing.T, i int) { vfC16Run(t, res, cases[i]) })
 	vfBubbles(t, vfPick(15, 90), func(t *testing.T, i int) { vfC16LateFinalFlight(t, res, i) })
+	vfBubbles(t, vfPick(12, 48), func(t *testing.T, i int) { vfC16CloseImported(t, res, i) })
 	vfParallel(vfPick(10, 100), func(_, i int) { vfC16ParkedWrite(res, i) })
 	vfParallel(vfPick(20, 200), func(_, i int) { vfC16CloseRace(res, i) })
 	vfParallel(vfPick(10, 100), func(_, i int) { vfC16ParkedWriteDeadline(res, i) })
